@@ -3,7 +3,7 @@
    NOT satisfy the whole statement: the gap, start and speed clauses are refuted below (recorded
    findings F3a/F3c); what does hold for all histories is proved at full strength. *)
 From Coq Require Import Lia.
-From SV Require Import Model.Session Proofs.SessionProofs.
+From SV Require Import Model.Session Proofs.SessionProofs Spec.QuietSpec Proofs.QuietProofs.
 
 (* with distinct event ids, no event is reported in two session results (nor twice in one) *)
 Theorem C10_each_event_at_most_once : forall c h i,
@@ -60,3 +60,11 @@ Theorem C10_speed_independent_refuted :
     In (SvBatch 1 10000 16000 [(1, 10000, 1); (2, 10100, 1); (3, 15000, 1)]) (snd (nrun ncfg1 nst0 h2)).
 Proof. exact speed_independent_refuted. Qed.
 Print Assumptions C10_speed_independent_refuted.
+
+(* delivery liveness across a channel overflow (see Spec/QuietSpec.v): after "channel empty, tick, drained again" with no
+   Add in between, the last watermark received is >= (largest sane timestamp) - ooo on every trace; by
+   C10_session_results every session that ended before it has then been delivered *)
+Theorem C10_tick_redelivers_skipped_watermark : forall c base h,
+  Forall (nnow_is base) h -> quiet_violated_s (nooo c) base (snd (nrun c nst0 h)) = false.
+Proof. exact session_quiet. Qed.
+Print Assumptions C10_tick_redelivers_skipped_watermark.
